@@ -2,7 +2,7 @@
 
 Lean: Props/C13.lean (C13, C13_complementary, C13_split_sum, C13_tiling, C13_tiling_any_rounding,
 C13_share, C13_share_any_rounding, C13_volume, C13_windows_rows, C13_groups_cover) over
-Model/Window.lean, the code as repaired in /repo (see findings.d/C13.json).
+Model/Window.lean, the code as repaired in /repo (see known_findings.json (entries of C13)).
 
 Tie to the code on every run:
   * whole survey tables (several sites, several components per site, repeated dates, surveys on the
